@@ -246,8 +246,14 @@ class QuicLoggerTrace:
         }
 
     def _encode_http3_headers(self, headers: Headers) -> list[dict]:
+        # Header names and values are arbitrary bytes (RFC 9110 only recommends
+        # ASCII), logging must never fail because of them.
         return [
-            {"name": h[0].decode("utf8"), "value": h[1].decode("utf8")} for h in headers
+            {
+                "name": h[0].decode("utf8", errors="backslashreplace"),
+                "value": h[1].decode("utf8", errors="backslashreplace"),
+            }
+            for h in headers
         ]
 
     # CORE
